@@ -207,7 +207,13 @@ class ComputeTypeVisitor(Visitor.DefaultVisitor):
                 )
                 expr.SetType(expr.GetOperator().GetReturnType())
             elif isinstance(expr, ast.AffixExpression):
-                expr.SetType(expr.children[0].GetType())
+                operandType = expr.children[0].GetType()
+                # ++ and -- add a scalar one
+                if not (operandType.IsPrimitive() and operandType.IsScalar()):
+                    Errors.ERROR_INCOMPATIBLE_TYPES.Raise(
+                        operandType, types.Integer()
+                    )
+                expr.SetType(operandType)
 
         return expr.GetType()
 
